@@ -188,7 +188,20 @@ def run_grouped(E, case, prop):
                 _cur().div_obligation = True
                 return em["ema_grouped"](A(list(codes), "int64").tag("input:group_key"), G, _varr(xs, dt).tag("input:values"), alpha=SF(False, alpha),
                                          mask=A(sel, "bool").tag("input:mask") if masked else None)
-            paths = run_paths(call)
+            try:
+                paths = run_paths(call)
+            except (Unsupported, OutsideModel):
+                raise
+            except Exception as e:      # noqa: BLE001 - valid arguments rejected / the entry point fails
+                from ..harness import solve_exists
+                r_, m_ = solve_exists(list(inp.pre) + list(getattr(e, "gb_pc", [])), True)
+                res["verdict"] = "sat"
+                res["subcases"] += 1
+                if len(res["candidates"]) < 4:
+                    res["candidates"].append({"signature": f"{prop}:raises:{type(e).__name__}:ema_grouped(public):mask={masked}", "case": dict(case, codes=list(codes)),
+                                              "kind": "raises", "inputs": jsonable(inp.eval(m_)) if m_ is not None else {},
+                                              "labels": [f"{type(e).__name__}: {str(e)[:150]}"]})
+                continue
             if len(paths) != 1:
                 raise Unsupported(f"ema_grouped forked into {len(paths)} paths on valid arguments")
             pc, out, rt = paths[0]
@@ -282,7 +295,33 @@ def run_ungrouped(E, case, prop):
     rt.div_obligation = True
     codes = [0] * N
     og = em["_ema_grouped"](A(codes, "int64"), _varr(xs, dt).tag("input:values"), SF(False, alpha), 1, None)
-    ou = em["_ema_adjusted"](_varr(xs, dt).tag("input:values"), SF(False, alpha))
+    if case.get("public"):
+        # the public entry point ema(values, alpha=...) (argument checks, dispatch) instead of the kernel
+        from ..runtime import run_paths
+
+        def call():
+            from ..runtime import current as _cur
+            _cur().div_obligation = True
+            return em["ema"](_varr(xs, dt).tag("input:values"), alpha=SF(False, alpha))
+        try:
+            paths = run_paths(call)
+        except (Unsupported, OutsideModel):
+            raise
+        except Exception as e:      # noqa: BLE001 - valid arguments rejected / the entry point fails
+            from ..harness import solve_exists
+            r_, m_ = solve_exists(list(inp.pre) + list(getattr(e, "gb_pc", [])), True)
+            res["verdict"] = "sat"
+            res["subcases"] += 1
+            res["candidates"].append({"signature": f"{prop}:raises:{type(e).__name__}:ema(public):{dt.kind}", "case": dict(case), "kind": "raises",
+                                      "inputs": jsonable(inp.eval(m_)) if m_ is not None else {}, "labels": [f"{type(e).__name__}: {str(e)[:150]}"]})
+            return _finish(res, E)
+        if len(paths) != 1:
+            raise Unsupported(f"ema forked into {len(paths)} paths on valid arguments")
+        pc, ou, rt2 = paths[0]
+        inp.pre.extend(pc)
+        rt.obligations.extend(rt2.obligations)
+    else:
+        ou = em["_ema_adjusted"](_varr(xs, dt).tag("input:values"), SF(False, alpha))
     bl = []
     seen_valid = False
     for i in range(N):
@@ -551,7 +590,7 @@ def replay(case, conc, cand=None):
             arr = real_np.array(xs, dtype=dt)
             alpha = float(conc["alpha"][0])
             og = rem._ema_grouped(real_np.zeros(len(xs), dtype="int64"), arr, alpha, 1, None)
-            ou = rem._ema_adjusted(arr, alpha)
+            ou = rem.ema(arr, alpha=alpha) if case.get("public") else rem._ema_adjusted(arr, alpha)
             started = False
             bad = []
             for i in range(len(xs)):
